@@ -1,2 +1,217 @@
--- driver stub for C10 (replaced when the model is built)
-def main : IO Unit := pure ()
+import PyramidModel.Prelude
+import PyramidModel.Lemmas.SessionSpec
+/-! Driver for C10: one JSON case (a whole history) per line.
+in : {"cfg":{"timeout":n|null,"reissue":n|null,"soe":b,"dsize":n}, "clock0":q,
+      "reqs":[{"dq":n,"present":"latest"|"absent"|["issued",k]|"reject"|["wire",W],"ops":null|[[dq,OP],…],"raised":b},…]}
+     W  = "nt" | [F,F,S]   F = q | "bad"   S = DATA | "nodict"
+     JV = null | bool | int | string | {"l":[JV…]} | {"d":[[k,JV]…]}      DATA = [[k,JV]…]
+     OP = ["get",k] ["getitem",k] ["contains",k] ["len"] ["keys"] ["items"] ["values"] ["iter"] ["set",k,v] ["del",k]
+          ["update",DATA] ["pop",k] ["pop",k,d] ["popitem"] ["setdefault",k,v] ["clear"] ["flash",m,q,dup]
+          ["pop_flash",q] ["peek_flash",q] ["new_csrf",tok] ["get_csrf",tok] ["invalidate"] ["changed"]
+out: {"model":[per request…], "spec":[per request…]|null}
+-/
+open Pyr Pyr.Session Lean
+
+/-- cookie values of the driver's symbolic codec: a cookie the application issued, a cookie the real
+serialiser refuses (classified by the harness on the real bytes), or a validly signed hand-made value -/
+inductive DC where
+  | good (p : Payload)
+  | reject
+  | wire (w : Wire)
+
+def drvCodec (dsize : Nat) : Codec DC :=
+  { dumps := .good
+    loads := fun c => match c with
+      | .good p => some (Wire.ofPayload p)
+      | .reject => none
+      | .wire w => some w
+    size := fun c => match c with
+      | .good p => signedLen dsize (payloadJsonLen p)
+      | _ => 0 }
+
+partial def parseJV (j : Json) : Except String JV :=
+  match j with
+  | .null => pure .null
+  | .bool b => pure (.bool b)
+  | .str s => pure (.str s)
+  | .num _ => do let i : Int ← fromJson? j; pure (.int i)
+  | .obj _ =>
+    match j.getObjVal? "l" with
+    | .ok (.arr xs) => do let ys ← xs.toList.mapM parseJV; pure (.arr ys)
+    | _ =>
+      match j.getObjVal? "d" with
+      | .ok (.arr xs) => do
+        let ys ← xs.toList.mapM fun p => match p with
+          | .arr #[.str k, v] => do let w ← parseJV v; pure (k, w)
+          | _ => throw "bad pair"
+        pure (.obj ys)
+      | _ => throw "bad object"
+  | _ => throw "bad value"
+
+def parseData (j : Json) : Except String Data :=
+  match j with
+  | .arr xs => xs.toList.mapM fun p => match p with
+    | .arr #[.str k, v] => do let w ← parseJV v; pure (k, w)
+    | _ => throw "bad pair"
+  | _ => throw "bad data"
+
+partial def jvJson : JV → Json
+  | .null => .null
+  | .bool b => .bool b
+  | .int i => toJson i
+  | .str s => .str s
+  | .arr xs => Json.mkObj [("l", Json.arr (xs.map jvJson).toArray)]
+  | .obj kvs => Json.mkObj [("d", Json.arr (kvs.map fun (k, v) => Json.arr #[.str k, jvJson v]).toArray)]
+
+def dataJson (d : Data) : Json := Json.arr (d.map fun (k, v) => Json.arr #[.str k, jvJson v]).toArray
+
+def parseOp (j : Json) : Except String Op :=
+  match j with
+  | .arr #[.str "get", .str k] => pure (.get k)
+  | .arr #[.str "getitem", .str k] => pure (.getitem k)
+  | .arr #[.str "contains", .str k] => pure (.contains k)
+  | .arr #[.str "len"] => pure .len
+  | .arr #[.str "keys"] => pure .keys
+  | .arr #[.str "items"] => pure .items
+  | .arr #[.str "values"] => pure .values
+  | .arr #[.str "iter"] => pure .iter
+  | .arr #[.str "set", .str k, v] => do pure (.set k (← parseJV v))
+  | .arr #[.str "del", .str k] => pure (.del k)
+  | .arr #[.str "update", d] => do pure (.update (← parseData d))
+  | .arr #[.str "pop", .str k] => pure (.pop k none)
+  | .arr #[.str "pop", .str k, d] => do pure (.pop k (some (← parseJV d)))
+  | .arr #[.str "popitem"] => pure .popitem
+  | .arr #[.str "setdefault", .str k, v] => do pure (.setdefault k (← parseJV v))
+  | .arr #[.str "clear"] => pure .clear
+  | .arr #[.str "flash", m, .str q, .bool dup] => do pure (.flash (← parseJV m) q dup)
+  | .arr #[.str "pop_flash", .str q] => pure (.popFlash q)
+  | .arr #[.str "peek_flash", .str q] => pure (.peekFlash q)
+  | .arr #[.str "new_csrf", .str t] => pure (.newCsrf t)
+  | .arr #[.str "get_csrf", .str t] => pure (.getCsrf t)
+  | .arr #[.str "invalidate"] => pure .invalidate
+  | .arr #[.str "changed"] => pure .changed
+  | _ => throw s!"bad op {j.compress}"
+
+def parseOps (j : Json) : Except String (Option (List (Nat × Op))) :=
+  match j with
+  | .null => pure none
+  | .arr xs => do
+    let l ← xs.toList.mapM fun p => match p with
+      | .arr #[d, o] => do
+        let dq : Nat ← fromJson? d
+        let op ← parseOp o
+        pure (dq, op)
+      | _ => throw "bad timed op"
+    pure (some l)
+  | _ => throw "bad ops"
+
+def parseFld (j : Json) : Except String Fld :=
+  match j with
+  | .str "bad" => pure .bad
+  | j => do let n : Nat ← fromJson? j; pure (.num n)
+
+def parseWire (j : Json) : Except String Wire :=
+  match j with
+  | .str "nt" => pure .notTriple
+  | .arr #[r, c, s] => do
+    let r ← parseFld r
+    let c ← parseFld c
+    let s ← match s with
+      | .str "nodict" => pure none
+      | s => do pure (some (← parseData s))
+    pure (.triple r c s)
+  | _ => throw "bad wire"
+
+def parsePresent (j : Json) : Except String (Present DC) :=
+  match j with
+  | .str "latest" => pure .latest
+  | .str "absent" => pure .absent
+  | .str "reject" => pure (.other .reject)
+  | .arr #[.str "issued", k] => do let n : Nat ← fromJson? k; pure (.issued n)
+  | .arr #[.str "wire", w] => do pure (.other (.wire (← parseWire w)))
+  | _ => throw "bad present"
+
+def parseReq (j : Json) : Except String (Req DC) := do
+  let dq : Nat ← getAs j "dq"
+  let pres ← parsePresent (← getField j "present")
+  let ops ← parseOps (← getField j "ops")
+  let raised : Bool ← getAs j "raised"
+  pure ⟨dq, pres, ops, raised⟩
+
+def resJson : Res → Json
+  | .unit => .str "unit"
+  | .val v => Json.arr #[.str "val", jvJson v]
+  | .bool b => Json.arr #[.str "bool", .bool b]
+  | .nat n => Json.arr #[.str "nat", toJson n]
+  | .keys ks => Json.arr #[.str "keys", toJson ks]
+  | .items kvs => Json.arr #[.str "items", dataJson kvs]
+  | .vals vs => Json.arr #[.str "vals", Json.arr (vs.map jvJson).toArray]
+  | .keyError => .str "keyerror"
+  | .err => .str "err"
+
+def payloadJson (dsize : Nat) (p : Payload) : Json :=
+  Json.mkObj [("accessed", toJson p.accessed), ("accInt", toJson p.accInt), ("created", toJson p.created),
+              ("data", dataJson p.data), ("size", toJson (signedLen dsize (payloadJsonLen p)))]
+
+def outcomeJson (dsize : Nat) : Outcome DC → Json
+  | .noCookie => .str "none"
+  | .suppressed => .str "suppressed"
+  | .oversize => .str "oversize"
+  | .cookie (.good p) => Json.arr #[.str "cookie", payloadJson dsize p]
+  | .cookie _ => .str "?"
+
+def obsJson (dsize : Nat) (o : Obs DC) : Json :=
+  Json.mkObj [
+    ("touched", toJson o.touched),
+    ("loadRaised", toJson o.loadRaised),
+    ("start", match o.start with
+      | none => .null
+      | some s => Json.mkObj [("data", dataJson s.data), ("created", toJson s.created),
+                              ("renewed", toJson s.renewed), ("new", toJson s.new)]),
+    ("results", Json.arr (o.results.map resJson).toArray),
+    ("end", match o.final with
+      | none => .null
+      | some s => Json.mkObj [("data", dataJson s.data), ("created", toJson s.created),
+                              ("accessed", toJson s.accessed), ("accInt", toJson s.accInt),
+                              ("dirty", toJson s.dirty), ("callbacks", toJson s.callbacks)]),
+    ("outcome", outcomeJson dsize o.outcome)]
+
+/-- the statement-level view of a request, when it has one (no hand-made wire values) -/
+def toSReq (r : Req DC) : Option Spec.SReq :=
+  match r.present with
+  | .latest => some ⟨r.dq, .latest, r.ops, r.raised⟩
+  | .absent => some ⟨r.dq, .absent, r.ops, r.raised⟩
+  | .issued k => some ⟨r.dq, .issued k, r.ops, r.raised⟩
+  | .other .reject => some ⟨r.dq, .rejected, r.ops, r.raised⟩
+  | .other _ => none
+
+def soutJson (dsize : Nat) : Spec.SOutcome → Json
+  | .noCookie => .str "none"
+  | .suppressed => .str "suppressed"
+  | .oversize => .str "oversize"
+  | .cookie c => Json.arr #[.str "cookie", payloadJson dsize c.payload]
+
+def sobsJson (dsize : Nat) (o : Spec.SObs) : Json :=
+  Json.mkObj [("touched", toJson o.touched), ("start", dataJson o.startData), ("created", toJson o.created),
+              ("new", toJson o.new), ("results", Json.arr (o.results.map resJson).toArray),
+              ("end", dataJson o.endData), ("outcome", soutJson dsize o.outcome)]
+
+def main : IO Unit := jsonDriver fun j => do
+  let cj ← getField j "cfg"
+  let timeout : Option Nat ← getAs cj "timeout"
+  let reissue : Option Nat ← getAs cj "reissue"
+  let soe : Bool ← getAs cj "soe"
+  let dsize : Nat ← getAs cj "dsize"
+  let clock0 : Nat ← getAs j "clock0"
+  let rj ← getField j "reqs"
+  let reqs ← match rj with
+    | .arr xs => xs.toList.mapM parseReq
+    | _ => throw "bad reqs"
+  let cfg : Cfg := ⟨timeout, reissue, soe⟩
+  let (_, obs) := runHistory (drvCodec dsize) cfg ⟨clock0, []⟩ reqs
+  let spec : Json := match reqs.mapM toSReq with
+    | none => .null
+    | some sreqs =>
+      let (_, sobs) := Spec.specRun (fun p => signedLen dsize (payloadJsonLen p)) cfg ⟨clock0, []⟩ sreqs
+      Json.arr (sobs.map (sobsJson dsize)).toArray
+  return Json.mkObj [("model", Json.arr (obs.map (obsJson dsize)).toArray), ("spec", spec)]
